@@ -104,6 +104,10 @@ def impl(case):
             next(it)                   # an abandoned first iteration: header, options, `part` node lines
     mseq = case.get("maxlevel_seq") or []
     seq = case.get("seq") or []
+    if (mseq or (seq and (case.get("seq_assign") or any(ov and "maxlevel" in ov for ov in seq)))) and \
+            not all(hasattr(exp, a) for a in ("filter_", "stop", "maxlevel")):
+        # the settings are not kept in public attributes (any more): nothing to reassign, the case does not apply
+        return {"skip": "exporter settings are not public attributes"}
     for i in range(case.get("iterations", 1)):
         if i < len(mseq):
             exp.maxlevel = mseq[i]         # the exporter's public attribute changed between two iterations
